@@ -1275,9 +1275,20 @@ fn diff_edge_attachments(
     after_edges: &std::collections::BTreeMap<ContentHash, EdgeRecord>,
     skip_attachment_ops: &std::collections::BTreeSet<AttachmentKey>,
 ) {
-    for id in after_edges.keys() {
+    for (id, rec_after) in after_edges {
         let edge_id = EdgeId(*id);
-        let before_val = before.edge_attachment(&edge_id);
+        // An edge that changed its source bucket is replayed as `DeleteEdge` + `UpsertEdge`, and
+        // `DeleteEdge` clears the beta attachment (mini-cascade): by the time attachment ops are
+        // replayed the edge carries none, whatever it carried before.
+        let migrated = matches!(
+            before.edge_index.get(&edge_id),
+            Some(from_before) if *from_before != rec_after.from
+        );
+        let before_val = if migrated {
+            None
+        } else {
+            before.edge_attachment(&edge_id)
+        };
         let after_val = after.edge_attachment(&edge_id);
         if before_val == after_val {
             continue;
